@@ -59,6 +59,8 @@ TABLE = [
     ("reverse-suffix-set Find reports the leftmost match", "C19 C02", "`[a-z]+\\.(txt|log)` on \"a.txt b.log\": FindIndex [6 11] (last suffix candidate kept)"),
     ("anchored-literal matcher encodes U+0080..U+00FF", "C19 C01", "`^é.*x$` on \"éax\": no match (é stored as the byte 0xE9); `^a.*[à-ÿ]+x$` tested code points as bytes"),
     ("reverse-suffix-set search takes the match end", "C02 C04", "`.+(?:aaa|abb)` on \"é\" + 18 x \"a\": FindAllIndex [0 5] (end of the first suffix candidate, not of the greedy match)"),
+    ("skips only the digits of the leading class", "C05 C02", "`[01]+[ab]+[a]+` on 1024 x \"0\" + \"k\": quadratic Match once subset classes stopped skipping at all; `[0-5]+a` on \"65a\""),
+    ("prefilter over the common suffix", "C01 C11", "`.*(?:bab|abb)` on \"abb\": Match false, FindIndex [0 3] (candidates were starts of bab/abb, the reverse scan began one byte after them)"),
     ("only accepts branches it can match exactly", "C19 C02", "`^([à-ÿ]+|x\\d)` on \"x1\" = [0 1]; `^(foo|bar|baz)` matched \"bax\""),
 ]
 
